@@ -15,9 +15,10 @@ func vFill(b []byte, x byte) {
 // return the DB does not reach the caller's key/value arrays;
 // (2) semantic double check (also meaningful natively): the caller scribbles
 // over everything it owns, later operations run, and contents are compared again.
-func hC14(n, L, vlen int) {
-	opts := smallOpts(fs.Mem, 2, 10+8+vlen)
-	dir := "c14"
+func hC14(n, L, vlen int) { hC14on(fs.Mem, "c14", n, L, vlen) }
+
+func hC14on(fsys fs.FileSystem, dir string, n, L, vlen int) {
+	opts := smallOpts(fsys, 2, 10+8+vlen)
 	db, err := Open(dir, opts)
 	vAssert(err == nil, "C14.open")
 	if err != nil {
@@ -173,4 +174,10 @@ func hC14(n, L, vlen int) {
 }
 
 func H_C14_q() { hC14(2, 2, 2) }
+
+// the memory-mapped and the plain OS file system over the kernel model: a result
+// that aliases a mapping is reachable from the DB, and reading it after Close
+// (munmap) is a fault obligation
+func H_C14_mmap() { hC14on(fs.OSMMap, "c14mmap", 2, 2, 2) }
+func H_C14_os()   { hC14on(fs.OS, "c14os", 2, 2, 2) }
 func H_C14_t() { hC14(2, 3, 3) }
